@@ -148,6 +148,7 @@ func c20Arith(d ref.DT, e tensor.Engine, op string, shape []int, la, lb, mode st
 	var rootD interface{}
 	var opts []tensor.FuncOpt
 	needD := mode == "reuse" || mode == "incr" || op == "FMA" || op == "FMAScalar"
+	_ = needD
 	if needD {
 		dl := "C"
 		if strings.HasSuffix(mode, ":S") {
@@ -158,9 +159,27 @@ func c20Arith(d ref.DT, e tensor.Engine, op string, shape []int, la, lb, mode st
 			return c20obs{}, false
 		}
 	}
+	if mode == "mismatch" {
+		// operand b of the same size but another shape (the reversed one): a shape mismatch
+		rs := make([]int, len(shape))
+		for i := range shape {
+			rs[i] = shape[len(shape)-1-i]
+		}
+		if ref.EqInts(rs, shape) {
+			return c20obs{}, false
+		}
+		B, rootB, _, ok = mkEng(d, e, rs, bv, lb)
+		if !ok {
+			return c20obs{}, false
+		}
+	}
 	switch {
 	case mode == "unsafe":
 		opts = append(opts, tensor.UseUnsafe())
+	case mode == "reuse=a":
+		opts = append(opts, tensor.WithReuse(A))
+	case mode == "reuse=b":
+		opts = append(opts, tensor.WithReuse(B))
 	case strings.HasPrefix(mode, "reuse"):
 		opts = append(opts, tensor.WithReuse(D))
 	case strings.HasPrefix(mode, "incr"):
@@ -304,6 +323,67 @@ func runC20(r *core.Run) {
 												return core.F("config-divergence", "dest", "%s leaves the destination's storage in a different state than StdEng: %s vs %s", es.name, ref.FmtEls(ob.dAft), ref.FmtEls(std.dAft))
 											}
 										}
+									}
+									return nil
+								})
+							}
+						}
+					}
+				}
+			}
+		}
+	}
+	// ---------------- drop-in replacement on the rest of C07's matrix: a reuse tensor that aliases an operand, and operands
+	// whose shapes do not fit - judged differentially against StdEng only (whether StdEng itself is right there is C06/C07's
+	// question and partly a recorded finding)
+	for _, es := range engines() {
+		if es.name == "StdEng" {
+			continue
+		}
+		for _, d := range es.dts {
+			for _, shape := range shapes {
+				if !r.Take() {
+					continue
+				}
+				n := ref.Prod(shape)
+				av, bv, _ := ewVals(d, n, "id")
+				for _, op := range []string{"Add", "Sub", "Mul", "Div"} {
+					for _, mode := range []string{"reuse=a", "reuse=b", "mismatch"} {
+						for _, la := range lays {
+							for _, lb := range lays {
+								es, d, shape, op, mode, la, lb := es, d, shape, op, mode, la, lb
+								id := fmt.Sprintf("C20|arith|%s|%s|%s|%s|%s|a=%s|b=%s", es.name, op, d.Name, shapeStr(shape), mode, la, lb)
+								if r.ReplayCase != "" && id != r.ReplayCase {
+									continue
+								}
+								r.Case(id, n >= 2, func() *core.Fail {
+									tensor.VerifResetPools()
+									ob, ok := c20Arith(d, es.e, op, shape, la, lb, mode, av, bv, nil, nil)
+									if !ok {
+										r.Dim("skipped", "layout")
+										return nil
+									}
+									tensor.VerifResetPools()
+									std, _ := c20Arith(d, tensor.StdEng{}, op, shape, la, lb, mode, av, bv, nil, nil)
+									r.Op(2)
+									r.Outcome("arith-diff:" + es.name + ":" + ob.class + "/" + std.class)
+									if (ob.class == "ok") != (std.class == "ok") {
+										return core.F("config-divergence", "class", "%s %s mode %s layouts %s,%s: %s %s, StdEng %s", op, d.Name, mode, la, lb, es.name, ob.class, std.class)
+									}
+									if ob.class != "ok" {
+										if !sameVals(std.aAft, ob.aAft) || !sameVals(std.bAft, ob.bAft) {
+											return core.F("config-divergence", "operands-after-refusal", "%s and StdEng both refuse but leave the operands in different states", es.name)
+										}
+										return nil
+									}
+									if std.ident != ob.ident {
+										return core.F("config-divergence", "ident", "%s returns the %s tensor, StdEng the %s tensor", es.name, ob.ident, std.ident)
+									}
+									if !sameVals(std.vals, ob.vals) {
+										return core.F("config-divergence", "values", "%s %s mode %s layouts %s,%s: %s delivers %s, StdEng %s", op, d.Name, mode, la, lb, es.name, ref.FmtEls(ob.vals), ref.FmtEls(std.vals))
+									}
+									if !sameVals(std.aAft, ob.aAft) || !sameVals(std.bAft, ob.bAft) {
+										return core.F("config-divergence", "operands", "%s leaves the operands in a different state than StdEng", es.name)
 									}
 									return nil
 								})
